@@ -210,6 +210,7 @@ pub struct Stats {
     pub runs_wide: u64,
     pub runs_plain: u64,
     pub runs_zst: u64,
+    pub runs_uniform: u64,
     pub ops_exec: u64,
     pub ops_skipped: u64,
     pub op_counts: [u64; N_OPK],
@@ -235,6 +236,7 @@ impl Stats {
             runs_wide: 0,
             runs_plain: 0,
             runs_zst: 0,
+            runs_uniform: 0,
             ops_exec: 0,
             ops_skipped: 0,
             op_counts: [0; N_OPK],
@@ -258,6 +260,7 @@ impl Stats {
         self.runs_wide += o.runs_wide;
         self.runs_plain += o.runs_plain;
         self.runs_zst += o.runs_zst;
+        self.runs_uniform += o.runs_uniform;
         self.ops_exec += o.ops_exec;
         self.ops_skipped += o.ops_skipped;
         for i in 0..N_OPK {
